@@ -281,6 +281,35 @@ fn model_after(model: &Game, c: &Cmd) -> Game {
     }
 }
 
+/// The same tokens with other white space (decided by a hash of the text, so it is reproducible).
+pub fn respace(text: &str) -> String {
+    let h = o::hash_str(text);
+    if h % 3 != 0 || text.len() > 2000 {
+        return text.to_string();
+    }
+    let mut out = String::new();
+    if h & 8 != 0 {
+        out.push_str("  ");
+    }
+    let mut k = h >> 8;
+    for (i, tok) in text.split_whitespace().enumerate() {
+        if i > 0 {
+            k = k.wrapping_mul(6364136223846793005).wrapping_add(1442695040888963407);
+            out.push_str(match (k >> 33) % 5 {
+                0 => "  ",
+                1 => "\t",
+                2 => " \t ",
+                _ => " ",
+            });
+        }
+        out.push_str(tok);
+    }
+    if h & 16 != 0 {
+        out.push_str(" \t");
+    }
+    out
+}
+
 /// Layer a
 pub fn run_inprocess(cmds: &[Cmd], rep: &mut Report) -> Result<(), Violation> {
     let mut sess = match guard(Session::new) {
@@ -378,7 +407,13 @@ pub fn run_process(ctx: &Ctx, cmds: &[Cmd], rep: &mut Report) -> Result<(), Viol
     let mut model = Game::new(Pos::startpos());
     for (i, c) in cmds.iter().enumerate() {
         let prev = model.clone();
-        eng_.send(&c.text);
+        // the protocol allows arbitrary white space between tokens: a third of the commands are
+        // sent with doubled blanks, tabs and blanks at both ends (same tokens, same meaning)
+        let wire = respace(&c.text);
+        if wire != c.text {
+            rep.class("process:command-sent-with-extra-white-space");
+        }
+        eng_.send(&wire);
         model = model_after(&model, c);
         if !(c.is_position || c.text == "ucinewgame") {
             continue;
@@ -568,7 +603,7 @@ pub fn parse_position(text: &str) -> Option<Game> {
 }
 
 pub const LEVEL: &str = "exploration";
-pub const RULE: &str = "UCI sessions of 1..8 commands from {position startpos|fen F [moves ...] (F in 6-field or 4-field form), the previous position command again, the position it led to given as a FEN with other counters (same key, other clocks, no history), extended by 1..3 more moves (as a GUI re-sends a growing game) or shortened by 1..3 moves (take-back), ucinewgame, isready}; move lists are legal games (up to 60 plies, special-move-weighted so castling, e.p. and all promotion suffixes occur as strings) and, in ~1/3 of the position commands, one move is corrupted (pseudo-legal but leaves the king in check, opponent's move, move of a missing piece, promotion without suffix, suffix on a non-promotion, uppercase, 0000, O-O, e1h1, e2, e2e9, z9z9, a legal move or promotion with trailing characters, two moves glued into one token - each verified by the oracle not to be legal there). Layer a (in-process session, hook H4): after EVERY command the session board == the model (last accepted position; startpos initially and after ucinewgame) in all components, its legal moves/check status == oracle, key == key of the oracle FEN, earlier positions of the accepted game remembered, and Err returned exactly for corrupted position commands. Plus four very long legal games (820..3000 plies, command lines of 4-15 kB) in both layers. Layer b (real binary): after every position/ucinewgame command a 'go nodes 2000' probe's bestmove must be legal in the model position (probes whose move is also legal in the previous position are counted as weak). Layer c (in-process, fuzzuci.rs): the generated sessions (and the grammar lines of C15) as raw text with 0..6 blind byte/token mutations (delete/insert vocabulary word/replace byte/delete or duplicate token/digit change/space<->newline/swap/truncate); every line is classified by a strict reading of the grammar on the oracle side (position startpos|fen <canonical valid FEN, 4 or 6 fields> [moves m1..mk, k>=1] => accepted exactly when every mi is legal; exactly ucinewgame => start position; lines without position/ucinewgame/go/quit/fen words => position unchanged; everything else is fed but not judged beyond self-consistency of the board, and lines with an invalid FEN argument or a go/quit word are not fed) and the same after-every-line comparison as layer a runs. The thorough tier adds a coverage-guided libFuzzer campaign (target fuzz_uci, 16 forks, seeded with 96 generator sessions and a vocabulary dictionary) over the same text oracle; its artifacts are re-judged in release mode. Non-trivial = session with a special move in a list, a corruption, or more than one command (text layers: at least one in-grammar position command); distinct by session text.";
+pub const RULE: &str = "UCI sessions of 1..8 commands from {position startpos|fen F [moves ...] (F in 6-field or 4-field form), the previous position command again, the position it led to given as a FEN with other counters (same key, other clocks, no history), extended by 1..3 more moves (as a GUI re-sends a growing game) or shortened by 1..3 moves (take-back), ucinewgame, isready}; move lists are legal games (up to 60 plies, special-move-weighted so castling, e.p. and all promotion suffixes occur as strings) and, in ~1/3 of the position commands, one move is corrupted (pseudo-legal but leaves the king in check, opponent's move, move of a missing piece, promotion without suffix, suffix on a non-promotion, uppercase, 0000, O-O, e1h1, e2, e2e9, z9z9, a legal move or promotion with trailing characters, two moves glued into one token - each verified by the oracle not to be legal there). Layer a (in-process session, hook H4): after EVERY command the session board == the model (last accepted position; startpos initially and after ucinewgame) in all components, its legal moves/check status == oracle, key == key of the oracle FEN, earlier positions of the accepted game remembered, and Err returned exactly for corrupted position commands. Plus four very long legal games (820..3000 plies, command lines of 4-15 kB) in both layers. Layer b (real binary; a third of the commands are sent with doubled blanks, tabs and blanks at both ends between the same tokens): after every position/ucinewgame command a 'go nodes 2000' probe's bestmove must be legal in the model position (probes whose move is also legal in the previous position are counted as weak). Layer c (in-process, fuzzuci.rs): the generated sessions (and the grammar lines of C15) as raw text with 0..6 blind byte/token mutations (delete/insert vocabulary word/replace byte/delete or duplicate token/digit change/space<->newline/swap/truncate); every line is classified by a strict reading of the grammar on the oracle side (position startpos|fen <canonical valid FEN, 4 or 6 fields> [moves m1..mk, k>=1] => accepted exactly when every mi is legal; exactly ucinewgame => start position; lines without position/ucinewgame/go/quit/fen words => position unchanged; everything else is fed but not judged beyond self-consistency of the board, and lines with an invalid FEN argument or a go/quit word are not fed) and the same after-every-line comparison as layer a runs. The thorough tier adds a coverage-guided libFuzzer campaign (target fuzz_uci, 16 forks, seeded with 96 generator sessions and a vocabulary dictionary) over the same text oracle; its artifacts are re-judged in release mode. Non-trivial = session with a special move in a list, a corruption, or more than one command (text layers: at least one in-grammar position command); distinct by session text.";
 pub const ASSUMPTIONS: &[&str] = &[
     "rules oracle + session model (last accepted position)",
     "shapes whose meaning the statement leaves open (junk where 'moves' belongs, empty 'moves' tail) are not generated here; C15 sends them and asserts liveness only",
